@@ -24,7 +24,9 @@ type C01Case struct {
 }
 
 func genC01(t *rapid.T) C01Case {
-	s := shape.Gen(t, shape.FullProfile())
+	prof := shape.FullProfile()
+	prof.LeafTypes = append(append([]string{}, prof.LeafTypes...), "Tagged", "*Tagged", "[]Tagged", "map[string]Tagged")
+	s := shape.Gen(t, prof)
 	T, err := s.Build()
 	if err != nil {
 		t.Fatalf("generated shape does not build: %v", err)
